@@ -1,5 +1,253 @@
-import Goat.Model.DataScope
+/-
+Property C13 — "Data scope: child overlays parent, locked sections are atomic", stated over the
+executable model `Goat/Model/DataScope.lean` of `/repo/app/scope/datascope/{data,child,locker}.go`.
+
+  "A child data scope returns its own value for a key when it has one and otherwise the parent's
+   current value, and setting a value in the child never changes the parent.  Between taking a
+   scope's data lock and committing it the holder has exclusive access: no other goroutine's read,
+   write or lock on that scope takes effect in between, so read-modify-write sequences done under
+   the lock are never lost."
+
+Vocabulary (model):
+  `Scopes`            heap of scopes; a child names its parent by index, `WF`: parents are older
+  `value ss s k`      `scope.Value(k)`: the walk up the chain;  `dataSet ss s k v`: `SetValue`
+  `chain ss s`        the maps consulted, child first (any length);  `firstHit`: first entry found
+  `anc ss j`          `j` and its ancestors
+  `run st (.req r)`   the request interpreter the model driver executes (differentially tested)
+  `sys init`          the transition system: one step = one critical section of the Go code;
+                      a schedule is any `List Nat` of thread indices (disabled choices are skipped)
+  `holds st t s`      thread `t` is between its `LockData` on scope `s` and the matching `Commit`
+  `touches st i`      the scope the next action of thread `i` reads, writes or locks
+  `initSt ss n p others f`  `n` threads running `p` next to threads running the programs `others`
+  `incProg s c k`     `k` times: lock s; v := locker.Value c; locker.SetValue c (v+1); Commit
+  `getOrCreate s c`   lock s; v := locker.Value c; if v == nil { v = new; locker.SetValue c v }; Commit
+  `isNoise s c p`     p consists of plain SetValue (not of key c on scope s) / Value / Keys calls
+  `isKeyNoise c p`    p consists of plain SetValue of keys other than c / Value / Keys calls
+-/
+import Goat.Proofs.DataScopeCounter
+import Goat.Proofs.DataScopeCreate
+import Goat.Proofs.DataScopeProgress
+
 namespace Goat.C13
-open Goat Goat.DataScope
-theorem stub : (1 : Nat) = 1 := rfl
+
+open Goat Goat.DataScope Goat.LTS
+
+/-! ### 1. The overlay (sequential) -/
+
+/-- A scope answers with its own entry when it has one (a stored nil counts) and otherwise with
+whatever its parent answers *now*; a root answers nil. -/
+theorem overlay_get (ss : Scopes) (hwf : WF ss) (c : Nat) (sc : Scope) (hc : ss[c]? = some sc) (k : Key) :
+    value ss c k =
+      match mget sc.data k with
+      | some v => v
+      | none =>
+        match sc.parent with
+        | some p => value ss p k
+        | none => none := by
+  rw [value_unfold hwf, readLevel_of_scope hc]
+  cases mget sc.data k <;> cases sc.parent <;> rfl
+
+/-- The same for chains of any depth at once: the answer is the first entry found along the chain
+of maps from the scope up to its root (induction on the chain). -/
+theorem overlay_get_chain (ss : Scopes) (s : Nat) (k : Key) : value ss s k = firstHit (chain ss s) k :=
+  valueF_eq_firstHit _ _ _
+
+/-- "the parent's CURRENT value": a child without an own entry follows a later write to its parent. -/
+theorem overlay_tracks_parent (ss : Scopes) (hwf : WF ss) (c p : Nat) (sc : Scope) (hc : ss[c]? = some sc)
+    (hp : sc.parent = some p) (k : Key) (hown : mget sc.data k = none) (v : Val) :
+    value (dataSet ss p k v) c k = v := by
+  have hlt : p < c := hwf c sc hc p hp
+  have hc' : (dataSet ss p k v)[c]? = some sc := by
+    rw [dataSet_getElem?_ne k v (by omega)]; exact hc
+  rw [overlay_get _ (WF_dataSet hwf p k v) c sc hc' k, hown, hp]
+  have hlen : c < ss.length := by
+    rcases List.getElem?_eq_some_iff.mp hc with ⟨h, _⟩; exact h
+  exact value_dataSet_same hwf p k v (by omega)
+
+example :
+    let ss : Scopes := [⟨none, [(1, some 5)], false⟩, ⟨some 0, [], false⟩, ⟨some 1, [(2, none)], false⟩]
+    value ss 2 1 = some 5 ∧ value ss 2 2 = none ∧ value (dataSet ss 0 1 (some 7)) 2 1 = some 7 ∧
+      value (dataSet ss 0 2 (some 7)) 2 2 = none := by decide
+
+/-- Setting a value in a scope changes that scope only: every other scope record is the same, and
+every scope whose chain does not pass through it — its parent, all its ancestors, its siblings —
+answers every `Value` as before.  (A locker writes through `dataSet` on its own scope as well.) -/
+theorem child_set_frames_parent (ss : Scopes) (s : Nat) (k : Key) (v : Val) :
+    (∀ j, j ≠ s → (dataSet ss s k v)[j]? = ss[j]?) ∧
+    (∀ j k', s ∉ anc ss j → value (dataSet ss s k v) j k' = value ss j k') :=
+  ⟨fun _ h => dataSet_getElem?_ne k v h, fun j k' h => value_dataSet_frame ss s j k k' v h⟩
+
+/-- in particular the parent (and every older scope) is unaffected: same answers, same keys -/
+theorem child_set_frames_parent_lt (ss : Scopes) (hwf : WF ss) (s j : Nat) (hj : j < s) (k k' : Key) (v : Val) :
+    value (dataSet ss s k v) j k' = value ss j k' ∧ dataKeys (dataSet ss s k v) j = dataKeys ss j := by
+  refine ⟨value_dataSet_lt hwf s j k k' v hj, ?_⟩
+  simp [dataKeys, dataSet_getElem?_ne k v (Nat.ne_of_lt hj)]
+
+/-- and the child itself shows the new value for that key and its old answers for the others -/
+theorem child_set_get (ss : Scopes) (hwf : WF ss) (s : Nat) (hs : s < ss.length) (k : Key) (v : Val) :
+    value (dataSet ss s k v) s k = v ∧ ∀ k', k' ≠ k → value (dataSet ss s k v) s k' = value ss s k' :=
+  ⟨value_dataSet_same hwf s k v hs, fun k' h => value_dataSet_other_key ss s s k k' v h⟩
+
+example :
+    let ss : Scopes := [⟨none, [(1, some 5)], false⟩, ⟨some 0, [], false⟩, ⟨some 0, [], false⟩]
+    1 ∉ anc ss 0 ∧ 1 ∉ anc ss 2 ∧ value (dataSet ss 1 1 (some 9)) 1 1 = some 9 ∧
+      value (dataSet ss 1 1 (some 9)) 0 1 = some 5 ∧ value (dataSet ss 1 1 (some 9)) 2 1 = some 5 := by decide
+
+/-- The functions above are what the request interpreter (the code the model driver runs against
+the Go implementation) computes when no lock is held. -/
+theorem seq_interpreter (st : Store) (hwf : WF st.scopes) (hfree : AllFree st.scopes) (s : Nat)
+    (hs : s < st.scopes.length) (k : Key) (v : Val) :
+    run st (.req (.get s k)) = (st, .inl (.val (value st.scopes s k))) ∧
+    run st (.req (.set s k v)) = ({ st with scopes := dataSet st.scopes s k v }, .inl .ok) :=
+  ⟨run_get hwf hfree s k hs, run_set hfree s k v hs⟩
+
+/-! ### 2. Locked sections (all schedules, any number of threads, any programs) -/
+
+/-- Between the `LockData` of thread `o` on scope `s` and its `Commit`, no action of another
+thread that reads, writes, lists or locks `s` occurs — in every schedule of every set of thread
+programs (threads start without lockers; scopes, chains, programs are arbitrary). -/
+theorem lock_exclusive (init : St) (h0 : ∀ th ∈ init.threads, th.lks = []) (sched : List Nat) :
+    ∀ p ∈ (sys init).fired sched, ∀ (o s : Nat), holds p.1 o s = true → o ≠ p.2 → touches p.1 p.2 ≠ some s := by
+  intro p hp o s hold hne
+  rcases fired_sound (sys init) sched p hp with ⟨hreach, t, hstep⟩
+  exact no_touch_while_held (LockInv_reachable h0 _ hreach) (step_rel hstep) hold hne
+
+/-- consequently the held scope — its map and its mutex — is exactly as the holder left it after
+every step of every other thread, and there is never a second holder. -/
+theorem lock_exclusive_frame (init : St) (h0 : ∀ th ∈ init.threads, th.lks = []) (sched : List Nat) :
+    ∀ p ∈ (sys init).fired sched, ∀ (o s : Nat), holds p.1 o s = true →
+      (∀ o', holds p.1 o' s = true → o' = o) ∧ isHeld p.1.scopes s = true ∧
+      (o ≠ p.2 → ∀ t, step p.1 p.2 = some t → t.scopes[s]? = p.1.scopes[s]?) := by
+  intro p hp o s hold
+  rcases fired_sound (sys init) sched p hp with ⟨hreach, _, _⟩
+  have hinv := LockInv_reachable h0 _ hreach
+  rcases holds_iff.mp hold with ⟨th, hth, hmem⟩
+  refine ⟨?_, hinv.held o th s hth hmem, ?_⟩
+  · intro o' hold'
+    rcases holds_iff.mp hold' with ⟨th', hth', hmem'⟩
+    exact hinv.uniq o' o th' th s hth' hth hmem' hmem
+  · intro hne t hstep
+    exact step_frame (step_rel hstep) (no_touch_while_held hinv (step_rel hstep) hold hne)
+
+-- two threads contend for scope 1 (a child); thread 2 issues plain traffic on it
+example :
+    let init := initSt [⟨none, [], false⟩, ⟨some 0, [], false⟩] 2 [.lock 1, .lset 7 (some 1), .lget 7, .commit]
+      [[.set 1 7 (some 9), .get 1 7]] 0
+    (∀ th ∈ init.threads, th.lks = []) ∧
+      ((sys init).fired [0, 1, 2, 0, 0, 2, 0, 2, 1, 2]).map (·.2) = [0, 0, 0, 0, 2, 1] := by decide
+
+-- the lock is per scope (a child's `LockData` takes the child's mutex only): while thread 0 holds the
+-- child (scope 1), the plain write of thread 1 to the parent (scope 0) goes through, and the holder's
+-- fall-back read then sees the parent's current value
+example :
+    let init := initSt [⟨none, [(7, some 5)], false⟩, ⟨some 0, [], false⟩] 1 [.lock 1, .lget 7, .commit]
+      [[.set 0 7 (some 6)]] 0
+    ((sys init).fired [0, 1, 0, 0]).map (·.2) = [0, 1, 0, 0] ∧
+      ((sys init).run [0, 1, 0, 0]).threads.map (·.reg) = [some 6, none] := by decide
+
+/-! ### 3. No lost update -/
+
+/-- `n` threads each perform `k` locked read-modify-write increments of key `c` on scope `s` (any
+scope of any heap: root or child at any depth), interleaved in any way with any number of threads
+issuing plain `SetValue` (not of that very entry) / `Value` / `Keys` on any scopes.  Whenever the
+incrementing threads have finished, the counter has grown by exactly `n * k`. -/
+theorem no_lost_update (ss : Scopes) (s : Nat) (c : Key) (v0 n k fresh : Nat) (others : List (List Instr))
+    (hv : dataGet ss s c = some (some v0)) (hn : ∀ p ∈ others, isNoise s c p = true) (sched : List Nat) :
+    let fin := (sys (initSt ss n (incProg s c k) others fresh)).run sched
+    (∀ (i : Nat) (th : Thread), i < n → fin.threads[i]? = some th → th.prog = []) →
+      dataGet fin.scopes s c = some (some (v0 + n * k)) := by
+  intro fin hdone
+  exact CInv_final (CInv_run hv hn sched) hdone
+
+/-- and at every moment of every schedule: counter + increments still to be performed = `v0 + n*k`
+(no increment is ever lost or duplicated on the way). -/
+theorem no_lost_update_invariant (ss : Scopes) (s : Nat) (c : Key) (v0 n k fresh : Nat) (others : List (List Instr))
+    (hv : dataGet ss s c = some (some v0)) (hn : ∀ p ∈ others, isNoise s c p = true) (sched : List Nat) :
+    let st := (sys (initSt ss n (incProg s c k) others fresh)).run sched
+    ∃ v, dataGet st.scopes s c = some (some v) ∧ v + pendTotal st.threads = v0 + n * k :=
+  (CInv_run hv hn sched).count
+
+/-- "final" is always reached: in the same scenario (well-formed heap, no lock taken at the start,
+the plain traffic names existing scopes) the locked sections never deadlock — while some thread has
+work left some thread can move — and no schedule performs more than `stMeasure` actions, so every
+execution that keeps scheduling enabled threads ends with all threads finished and the count above. -/
+theorem no_lost_update_progress (ss : Scopes) (hwf : WF ss) (hfree : AllFree ss) (s : Nat) (c : Key)
+    (v0 n k fresh : Nat) (others : List (List Instr))
+    (hv : dataGet ss s c = some (some v0)) (hn : ∀ p ∈ others, isNoise s c p = true)
+    (hvalid : ∀ p ∈ others, progValid ss.length p = true) (sched : List Nat) :
+    let init := initSt ss n (incProg s c k) others fresh
+    (allDone ((sys init).run sched) = false → ∃ i t, step ((sys init).run sched) i = some t) ∧
+    ((sys init).fired sched).length ≤ stMeasure ss.length init := by
+  intro init
+  refine ⟨counter_enabled (PInv_run hwf hfree hv hn hvalid sched), ?_⟩
+  exact fired_bounded sched init (PInv_init hwf hfree hv hn hvalid).toTInv
+
+example :
+    let ss : Scopes := [⟨none, [(3, some 0)], false⟩, ⟨some 0, [(3, some 0)], false⟩]
+    WF ss ∧ AllFree ss ∧ progValid ss.length [.set 1 4 (some 1), .set 0 3 (some 8), .get 1 3] = true ∧
+      stMeasure ss.length (initSt ss 2 (incProg 1 3 2) [[.set 1 4 (some 1), .set 0 3 (some 8), .get 1 3]] 0) = 57 := by
+  refine ⟨?_, ?_, by decide, by decide⟩
+  · intro i sc hi p hp
+    match i, hi with
+    | 0, hi => simp at hi; subst hi; simp at hp
+    | 1, hi => simp at hi; subst hi; simp at hp; omega
+    | i + 2, hi => simp at hi
+  · intro i sc hi
+    match i, hi with
+    | 0, hi => simp at hi; subst hi; rfl
+    | 1, hi => simp at hi; subst hi; rfl
+    | i + 2, hi => simp at hi
+
+-- 2 threads × 2 increments on a child scope, a third thread writing another key of the same scope
+-- and the same key of the parent: one complete schedule, final value 4
+example :
+    let init := initSt [⟨none, [(3, some 0)], false⟩, ⟨some 0, [(3, some 0)], false⟩] 2 (incProg 1 3 2)
+      [[.set 1 4 (some 1), .set 0 3 (some 8), .get 1 3]] 0
+    let fin := (sys init).run [0, 1, 2, 0, 2, 0, 1, 0, 1, 1, 2, 1, 1, 0, 0, 0, 0, 1, 1, 1, 1, 2, 2, 2]
+    allDone fin = true ∧ dataGet fin.scopes 1 3 = some (some 4) ∧ dataGet fin.scopes 0 3 = some (some 8) := by
+  decide
+
+/-! ### 4. Get-or-create -/
+
+/-- The idiom of `tasks.Unit.FromScope`, `envs.Unit.Envs`, `waits.WaitManager.ForScope`: `n` callers
+on scope `s` (root or child at any depth of any well-formed heap), interleaved in any way with plain
+traffic that does not write the service's key.  Every caller that has returned holds the same,
+non-nil instance — the one the scope answers with —, and at most one instance was ever created. -/
+theorem get_or_create_once (ss : Scopes) (hwf : WF ss) (s : Nat) (hs : s < ss.length) (c : Key) (n fresh : Nat)
+    (others : List (List Instr)) (hn : ∀ p ∈ others, isKeyNoise c p = true) (sched : List Nat) :
+    let fin := (sys (initSt ss n (getOrCreate s c) others fresh)).run sched
+    (∀ (i j : Nat) (a b : Thread), i < n → j < n → fin.threads[i]? = some a → fin.threads[j]? = some b →
+        a.prog = [] → b.prog = [] → a.reg = b.reg ∧ a.reg ≠ none ∧ a.reg = value fin.scopes s c) ∧
+    fin.fresh ≤ fresh + 1 := by
+  intro fin
+  have hinv : GInv s c n fresh fin := GInv_run hwf hs hn sched
+  refine ⟨?_, ?_⟩
+  · intro i j a b hi hj ha hb hpa hpb
+    have h1 := GInv_done hinv hi ha hpa
+    have h2 := GInv_done hinv hj hb hpb
+    exact ⟨by rw [h1.1, h2.1], h1.2, h1.1⟩
+  · rcases hinv.once with h | ⟨h, _⟩ <;> omega
+
+-- the hypotheses are satisfiable: a chain root → child → grandchild as built by `New`/`NewChild`
+example :
+    let ss := newChild (newChild (newRoot [] []) 0 []) 1 []
+    WF ss ∧ 2 < ss.length ∧ isKeyNoise 5 [.set 1 6 (some 1), .get 2 5] = true ∧
+      ss = [⟨none, [], false⟩, ⟨some 0, [], false⟩, ⟨some 1, [], false⟩] :=
+  ⟨WF_newChild (WF_newChild (WF_newRoot WF_nil []) 0 (by decide) []) 1 (by decide) [], by decide, by decide, by decide⟩
+
+-- three callers on a grandchild scope whose chain has no instance yet, one thread of plain traffic
+example :
+    let init := initSt [⟨none, [], false⟩, ⟨some 0, [], false⟩, ⟨some 1, [], false⟩] 3 (getOrCreate 2 5)
+      [[.set 1 6 (some 1), .get 2 5]] 100
+    let fin := (sys init).run [1, 0, 1, 1, 2, 1, 3, 1, 1, 0, 3, 0, 0, 0, 0, 3, 2, 2, 2, 2, 2, 2]
+    allDone fin = true ∧ fin.threads.map (·.reg) = [some 100, some 100, some 100, some 100] ∧ fin.fresh = 101 := by
+  decide
+
+-- the parent already has an instance: the child's callers reuse it, nothing is created
+example :
+    let init := initSt [⟨none, [(5, some 42)], false⟩, ⟨some 0, [], false⟩] 2 (getOrCreate 1 5) [] 100
+    let fin := (sys init).run [0, 0, 0, 1, 0, 0, 1, 1, 1, 1, 1]
+    allDone fin = true ∧ fin.threads.map (·.reg) = [some 42, some 42] ∧ fin.fresh = 100 := by
+  decide
+
 end Goat.C13
